@@ -57,9 +57,12 @@ def has_alias_cycle(files):
             rhs = text[m.end(): nxt.start() if nxt else len(text)]
             mentions.setdefault(m.group(1), set()).update(_re.findall(r"[A-Za-z_]\w*", rhs))
             prev = None
-            while prev != rhs:          # strip guarded regions
+            while prev != rhs:          # strip guarded regions: object literals, tuples, type arguments of data constructors, T[]
                 prev = rhs
                 rhs = _re.sub(r"\{[^{}]*\}", " ", rhs)
+                rhs = _re.sub(r"(^\s*|[|&<,=(:?]\s*)\[[^\[\]]*\]", r"\1 ", rhs)      # a tuple literal, not an indexed access X["k"]
+                rhs = _re.sub(r"\b(?:Map|Set|Array|ReadonlyArray|Promise)\s*<[^<>]*>", " ", rhs)
+                rhs = _re.sub(r"[A-Za-z_]\w*\s*\[\]", " ", rhs)
             graph.setdefault(m.group(1), set()).update(_re.findall(r"[A-Za-z_]\w*", rhs))
     names = set(graph)
     for n in graph:
